@@ -903,7 +903,9 @@ def run_e2e08(spec):
         al, ml, ga = (np.asarray(z, dtype=float).reshape(-1)[0] for z in k._get_params(X))
 
         def kap(r):
-            return np.asarray(_ED._compute_kappa(np.asarray(r, dtype=float), al, ml), dtype=float)
+            # kappa(t) = (beta / (t + beta))^alpha with beta = alpha / mean_lam (the documented formula, written out here)
+            beta_ = al / ml
+            return (beta_ / (np.asarray(r, dtype=float) + beta_)) ** al
         for A, B, lbl in ((X, X, "k(X, X)"), (X, Xs, "k(X, X*)"), (Xs, Xs, "k(X*, X*)")):
             same = np.array([[float(np.array_equal(a_[:-1], b_[:-1])) for b_ in B] for a_ in A]).reshape(len(A), len(B))
             ra, rb = A[:, -1].reshape(-1, 1), B[:, -1].reshape(1, -1)
@@ -1034,6 +1036,13 @@ def run_e2e08(spec):
             mon.append(F("c08:fantasy-columns-dependent", f"column {j} of the fantasy predictions differs from the single-target prediction", {"spec": spec}))
     # update = recompute
     st_u = st.update(xnew, ynew)
+    # a second child of the same parent (another candidate fantasised from the same posterior): the first child is a value of its own
+    xsib = features_for(rng, kind, d, 1, "none")
+    try:
+        st.update(xsib, np.array([[rng.gauss(0, 1) for _ in range(m)]]))
+        hist["sibling_update"] = 1
+    except Exception:  # noqa
+        pass
     X2, Y2 = np.vstack([X, xnew]), np.vstack([Y, ynew])
     st_r = GaussProcPosteriorState(X2, Y2, mean, karg, noise_variance=noise)
     K2 = kmat(X2, X2)
@@ -1113,7 +1122,7 @@ def gen_e2e09_fit(rng, tier):
             # Box-Cox target transform incl. the lambda = 0 (log) corner and values next to it
             "boxcox": rng.choice([None, None, None, "0", "0", "0.5", "-0.3", "5e-8", "random"]),
             "verbose": rng.random() < 0.25, "at_init": rng.random() < 0.25, "at_bound": rng.random() < 0.3,
-            "yscale": rng.choice([None, None, None, 300, 3000])}
+            "yscale": rng.choice([None, None, None, 300, 3000]), "encoding": rng.choice(["logarithm", "logarithm", "positive"])}
 
 
 class _NotANumber(Exception):
@@ -1135,7 +1144,8 @@ def _run_e2e09_fit(spec):
     kind, d, n = spec["model"], spec["d"], spec["n"]
     hist = {"e2e09_fit": 1, "fit_model:" + kind: 1}
     mon = []
-    k, mean, lik = build_model(kind, d, spec["zero_mean"])
+    k, mean, lik = build_model(kind, d, spec["zero_mean"], None, spec.get("encoding") or "logarithm")
+    hist["fit_encoding:" + (spec.get("encoding") or "logarithm")] = 1
     X = features_for(rng, kind, d, n, "none")
     y = np.array([[math.sin(3 * X[i, 0]) + 0.3 * rng.gauss(0, 1)] for i in range(n)])
     if spec.get("yscale") and not spec.get("boxcox"):
@@ -1191,6 +1201,21 @@ def _run_e2e09_fit(spec):
             # e.g. an autograd box of an earlier, finished trace left in a parameter
             raise _NotANumber(f"the criterion is not a number but {type(z).__name__}: {str(z)[:120]}")
 
+    if (spec.get("encoding") == "positive") and len(vec) and float(np.max(vec)) > 700.0:
+        # softrelu(x) = log(1 + exp(x)) overflows for x > 709 although the box of e.g. the covariance scale reaches 1000
+        try:
+            v0 = scalar(obj(vec.copy())[0])
+            bad = not math.isfinite(v0)
+        except _NotANumber:
+            raise
+        except Exception as e:  # noqa
+            bad = True
+        if bad:
+            return {"lines": [], "monitor": [F("c09:positive-encoding-overflows-inside-box",
+                                               f"encoding_type='positive': a parameter vector inside the box constraints (internal value "
+                                               f"{float(np.max(vec)):.6g} > 709) makes the fitting criterion overflow (exp in softrelu)",
+                                               {"spec": spec})],
+                    "meta": {"hist": dict(hist, positive_encoding_overflow=1), "nontrivial": True, "dev": {}}}
     val, grad = obj(vec.copy())
     val, grad = scalar(val), np.asarray(grad, dtype=float)
     conv.from_vec(vec.copy())
@@ -1618,11 +1643,36 @@ def run_e2e09_indep(spec):
         elif key.startswith("covariance_scale"):
             params[key] = math.exp(rng.uniform(-0.7, 0.7))
     gpmodel.set_params(params)
+    mon = []
+    # the fitting criterion of this surrogate (one covariance scale and mean per rung level): gradient = derivative of the value
+    try:
+        data_i = {"features": features, "targets": targets}
+        obj_i, pd_i = create_lbfgs_arguments(gpmodel.likelihood, [data_i])
+        conv_i = ParamVecDictConverter(pd_i)
+        vec_i = np.asarray(conv_i.to_vec(), dtype=float)
+        vec_i = vec_i + np.array([rng.uniform(-0.3, 0.3) for _ in range(len(vec_i))])
+        val_i, grad_i = obj_i(vec_i.copy())
+        val_i, grad_i = float(np.asarray(val_i).reshape(-1)[0]), np.asarray(grad_i, dtype=float)
+
+        def f_i(v):
+            return float(np.asarray(obj_i(v.copy())[0]).reshape(-1)[0])
+        for i in rng.sample(range(len(vec_i)), min(len(vec_i), 6)):
+            rr, err = richardson(f_i, vec_i, i, 1e-3)
+            if not abs(grad_i[i] - rr) <= fd_tol(grad_i[i], rr, err, abs(val_i)):
+                name = [nm for nm, ix in conv_i.name_to_index.items() if i in ix]
+                mon.append(F("c09:fit-gradient-not-derivative",
+                             f"gp_independent (one GP per rung level): d criterion / d {name} = {grad_i[i]:.10g} from autograd, {rr:.10g} by "
+                             f"Richardson central differences (error estimate {err:.2e})", {"spec": spec, "index": i}))
+                break
+        hist["indep_fit_gradient_checked"] = 1
+        gpmodel.set_params(params)
+    except _NotANumber as e:
+        mon.append(F("c09:criterion-not-a-number", str(e), {"spec": spec}))
     gpmodel.recompute_states({"features": features, "targets": targets})
     hp = make_hyperparameter_ranges({"x%d" % i: uniform(0.0, 1.0) for i in range(d)})
     predictor = GaussProcPredictor(state=TuningJobState.empty_state(hp), gpmodel=gpmodel, fantasy_samples=[],
                                    active_metric=INTERNAL_METRIC_NAME, normalize_mean=mean, normalize_std=std)
-    mon, worst, npts = [], 0.0, 0
+    worst, npts = 0.0, 0
     acq = AF.LCBAcquisitionFunction(predictor, kappa=rng.choice([0.5, 1.5])) if spec["acq"] == "lcb" else None
     for r in rungs:
         for _ in range(2):
